@@ -169,7 +169,9 @@ class Ctx:
                 self.translator_report = {"*": {"*": "translator crashed: %s" % e}}
             proj = os.path.join(COQ, "_CoqProject")
             listed = open(proj).read() if os.path.exists(proj) else ""
-            on_disk = [os.path.join(d, f) for d in ("Gen", "Proofs") for f in sorted(os.listdir(os.path.join(COQ, d))) if f.endswith(".v")]
+            wip = set(l.strip() for l in open(os.path.join(COQ, "WIP")) if l.strip()) if os.path.exists(os.path.join(COQ, "WIP")) else set()
+            on_disk = [os.path.join(d, f) for d in ("Gen", "Proofs", "Properties") for f in sorted(os.listdir(os.path.join(COQ, d)))
+                       if f.endswith(".v") and os.path.join(d, f) not in wip]
             if not os.path.exists(os.path.join(COQ, "Makefile")) or any(f not in listed for f in on_disk):
                 rc, out, _ = sh("./gen_project.sh", cwd=COQ)
                 if rc != 0:
@@ -197,11 +199,14 @@ class Ctx:
     def audit(self):
         """grep audit of the whole development for escape hatches."""
         bad = []
+        wip = set(l.strip() for l in open(os.path.join(COQ, "WIP")) if l.strip()) if os.path.exists(os.path.join(COQ, "WIP")) else set()
         for root, _, files in os.walk(COQ):
             for fn in files:
                 if not fn.endswith(".v"):
                     continue
                 p = os.path.join(root, fn)
+                if os.path.relpath(p, COQ) in wip:
+                    continue      # work in progress: not part of the build (gen_project.sh leaves these files out)
                 txt = open(p).read()
                 txt_nc = strip_coq_comments(txt)
                 for m in AUDIT_RE.finditer(txt_nc):
